@@ -327,7 +327,7 @@ func (t *table) Search(key []byte, maxVs *uint64) (entry *kv.Entry, err error) {
 	}
 
 	if e := item.Entry(); kv.SameKey(key, e.Key) {
-		if version := kv.ParseTs(e.Key); *maxVs < version {
+		if version := kv.ParseTs(e.Key); supersedes(version, *maxVs) {
 			*maxVs = version
 			clone := kv.NewEntryWithCF(e.CF, kv.SafeCopy(nil, e.Key), kv.SafeCopy(nil, e.Value))
 			clone.ExpiresAt = e.ExpiresAt
@@ -340,6 +340,13 @@ func (t *table) Search(key []byte, maxVs *uint64) (entry *kv.Entry, err error) {
 		}
 	}
 	return nil, utils.ErrKeyNotFound
+}
+
+// supersedes reports whether a candidate version replaces the best version found so far.
+// best == 0 also stands for "nothing found yet", so a candidate stored at version 0 is
+// accepted in that state instead of being indistinguishable from the initial value.
+func supersedes(candidate, best uint64) bool {
+	return candidate > best || (candidate == 0 && best == 0)
 }
 
 func (t *table) loadBlock(idx int) (*block, error) {
